@@ -14,6 +14,8 @@ type Lexer struct {
 	atStart bool
 	header  headerState
 	last    TokenType // type of the previous token
+	// the previous token is the directive keyword "include"
+	afterInclude bool
 
 	// memo of looksLikeAccount: input[aheadStart:aheadEnd] was scanned and its
 	// last colon is at aheadLastColon (-1: none)
@@ -49,6 +51,8 @@ func NewLexer(input string) *Lexer {
 func (l *Lexer) Next() Token {
 	tok := l.next()
 	l.last = tok.Type
+	// what follows "include" is a file path: one piece of text up to a comment
+	l.afterInclude = tok.Type == TokenDirective && tok.Value == "include"
 	return tok
 }
 
@@ -106,6 +110,10 @@ func (l *Lexer) scanInLine() Token {
 		if tok, ok := l.scanHeader(); ok {
 			return tok
 		}
+	}
+
+	if l.afterInclude && l.peek() != '\n' && l.peek() != ';' {
+		return l.scanIncludePath()
 	}
 
 	ch := l.peek()
@@ -492,6 +500,18 @@ func (l *Lexer) scanCommodityOrText() Token {
 	l.pos = start
 	l.column = startPos.Column
 	return l.scanText()
+}
+
+// scanIncludePath scans the rest of an include line up to a comment as one text
+// token: a path may start with digits and contain blanks ('2024 q1.journal').
+func (l *Lexer) scanIncludePath() Token {
+	start := l.pos
+	startPos := l.position()
+	for !l.atLineEnd() && l.peek() != ';' {
+		l.advance()
+	}
+	value := strings.TrimSpace(l.input[start:l.pos])
+	return Token{Type: TokenText, Value: value, Pos: startPos, End: l.position()}
 }
 
 func (l *Lexer) scanText() Token {
